@@ -216,6 +216,50 @@ Theorem C06_issuance_never_other_amount :
 Proof. exact @issuance_never_other_amount. Qed.
 Print Assumptions C06_issuance_never_other_amount.
 
+(* ---- one generator instance, any history of UnblindInputs calls (zkp_generator.go) ----
+   A generator keeps no memory of packets: the k-th answer is the function of the k-th packet
+   and of the keys the constructor stored. *)
+Theorem C06_generator_history_pointwise :
+  forall G C (P : prims G C) st h,
+  gen_run P st h = (st, map (fun p => unblind_inputs P st (fst p) (snd p)) h).
+Proof. exact @gen_run_pointwise. Qed.
+Print Assumptions C06_generator_history_pointwise.
+
+(* after ANY history (same outpoint or not), a packet whose prevout is a library-blinded output
+   is unblinded to exactly what that prevout holds (blinding-keys generator: the recipient key
+   is the first of the list that is the recipient's; master-key generator: the key derived from
+   the script is the recipient's) *)
+Theorem C06_history_then_honest :
+  forall G C (P : prims G C) pk, laws P pk ->
+  forall value asset abf vbf script rsk esk R E exp mb bl,
+  blinded_for P pk value asset abf vbf script rsk esk R E exp mb bl ->
+  forall gk h sp idxs, reaches gk script rsk -> idxs = [] \/ idxs = [0] ->
+  snd (gen_step P (fst (gen_run P gk h)) ([out_of_blinded bl script E sp], idxs)) =
+    UOk [mk_owned 0 value asset vbf abf].
+Proof. exact @history_then_honest. Qed.
+Print Assumptions C06_history_then_honest.
+
+(* after ANY history, a prevout with an altered script or value commitment fails, whatever keys *)
+Theorem C06_history_then_tampered_script :
+  forall G C (P : prims G C) pk, laws P pk ->
+  forall value asset abf vbf script rsk esk R E exp mb bl,
+  blinded_for P pk value asset abf vbf script rsk esk R E exp mb bl ->
+  forall gk h script' sp idxs, script' <> script -> idxs = [] \/ idxs = [0] ->
+  snd (gen_step P (fst (gen_run P gk h))
+         ([mk_out (bl_asset bl) (bl_value bl) script' E (bl_proof bl) sp], idxs)) = UErr.
+Proof. exact @history_then_tampered_script. Qed.
+Print Assumptions C06_history_then_tampered_script.
+
+Theorem C06_history_then_tampered_value_commitment :
+  forall G C (P : prims G C) pk, laws P pk ->
+  forall value asset abf vbf script rsk esk R E exp mb bl,
+  blinded_for P pk value asset abf vbf script rsk esk R E exp mb bl ->
+  forall gk h vc' sp idxs, vc' <> bl_value bl -> idxs = [] \/ idxs = [0] ->
+  snd (gen_step P (fst (gen_run P gk h))
+         ([mk_out (bl_asset bl) vc' script E (bl_proof bl) sp], idxs)) = UErr.
+Proof. exact @history_then_tampered_value_commitment. Qed.
+Print Assumptions C06_history_then_tampered_value_commitment.
+
 (* the laws are satisfiable (and the theorems' hypotheses too: ex_* Examples in Proofs/Unblind.v) *)
 Theorem C06_laws_satisfiable : laws toy toy_pk.
 Proof. exact toy_laws. Qed.
